@@ -78,10 +78,17 @@ def _shuffle_q(rng, K):
     return dict(items)
 
 
-BAD_KEYS = ("Xx", "c", "C1", "", "?+1", "CC", "C+", "C++1", "+1", "C+1+", "C+a", "C-",
-            "C+-1", "C +1", "C+1 ", " C", "Cl+", "N+1.0", "O-1-1", "*", "R", "D", "C+1e1")
-ODD_KEYS = ("C+0", "C+01", "N-0", "O+00", "C-²", "N+١", "S+007", "C+10", "N-10",
-            "Fe+20", "O+100")   # accepted by some validators, not spellable by others
+# keys that are malformed under any reading of "E, E+C or E-C with E an element
+# symbol and C a positive integer": accepting one of them is itself a violation
+# of C12 (oracle invalid_update_rejected)
+BAD_KEYS = ("Xx", "C1", "", "?+1", "CC", "C+", "C++1", "+1", "C+1+", "C+a", "C-",
+            "C+-1", "C +1", "C+1 ", " C", "Cl+", "N+1.0", "O-1-1", "C+1e1", "-", "+", "1", "C+1-", "Zz+2")
+# keys a validator may or may not accept (acceptance is not judged by C12), but
+# which, once accepted, must be spellable as SELFIES symbols (C07)
+ODD_KEYS = ("C+0", "C+01", "N-0", "O+00", "C-\u00b2", "N+\u0661", "S+007", "C+10", "N-10",
+            "Fe+20", "O+100", "c", "*", "R", "D", "Cl\n", "S+1\n", "C+1\u0662", "Fe+2\u0969",
+            "N+\uff11", "C+1\u00b2", "O-1\r", "C\t", "\nC", "C+1\x00", "Cl ", "C+1_0", "N+1\u0660",
+            "C\u0301", "\u0421", "C+\u0967\u0966")
 BAD_VALUES = ("-1", "-7", "2.0", "2.5", "'3'", "None", "[1]", "(2,)", "-0.0", "1e0", "{}")
 BAD_PRESETS = ("octet", "Default", "", "hyper-valent", "default ", "OCTET_RULE", "?", "C")
 BAD_ARGS = ("None", "4", "2.5", "[('C', 4), ('?', 8)]", "(('?', 8),)", "['?']", "{'?'}",
@@ -425,7 +432,10 @@ class _GenState:
             base = self.cur if rng.random() < 0.7 else PRESET_GUESS[rng.choice(PRESET_NAMES)]
             K = gen_table(rng, fam, base)
             self.handles.append((idx, "dict"))
-            yield {"op": "set_table", "lit": lit(K)}
+            op = {"op": "set_table", "lit": lit(K)}
+            if rng.random() < 0.12:
+                op["wrap"] = rng.choice(("defaultdict", "OrderedDict", "Counter", "missing"))
+            yield op
             self.table_changed(K)
             yield from self.after_change(idx + 1)
         elif kind == "set_bad":
